@@ -186,6 +186,9 @@ def apply_op(sx, pool, i, kind, preset=None):
     if kind == 'mandatory':
         t = pick(sx, 't%d' % i, names, preset)
         new = Mandatory(pool[t])
+        # Mandatory() is a customize(): the new variant inherits what its base still has pending
+        PENDING[id(new)] = dict((f, dict(a)) for f, a in PENDING.get(id(pool[t]), {}).items())
+        PENDING_ALL[id(new)] = dict(PENDING_ALL.get(id(pool[t]), {}))
         return ('Mandatory(%s)' % t, set(), new, [new.Attributes.min_occurs == 1, new.Attributes.nillable is False])
     if kind == 'subclass':
         t = pick(sx, 't%d' % i, [n for n in names if issubclass(pool[n], ComplexModel.__mro__[1]) and not issubclass(pool[n], Array)
